@@ -39,6 +39,15 @@ CHECKS = {
  "C19": dict(tech="exhaustive enumeration of all ordered pairs of a bounded ABI type universe; independent ARC-4 layout normal form + reference codec on sample values; call-site cross-check",
              text="All ordered pairs of 224 (thorough: more) type specs: assignable(a,b) must imply equal normalised ARC-4 layouts and identical reference encodings of sample values; subroutine parameters must accept exactly the assignable argument types.",
              note="algosdk.abi as reference codec; universe bounded to depth 2", ref="2/C19"),
+ "C06": dict(tech="exhaustive enumeration of ABI type shapes x boundary-value combinations x construction mode x storage back-end x versions; compiled program executed on reference AVM vs algosdk ARC-4 codec",
+             text="All type shapes of the universe (base types, static/dynamic arrays, tuples, named tuples, every bool run bool^1..17 with prefixes/suffixes, depth-2 composites): descriptor strings / static length / dynamic-ness compared with the reference codec, and values assembled with set(...) from Python literals and from run-time expressions, in the main routine and in a subroutine (frame variables), must log exactly the reference encoding; out-of-range integers rejected at build (literals) or failing at run time (expressions).",
+             note="algosdk.abi as the ARC-4 reference; value combinations capped per shape (cap in evidence)", ref="2/C06"),
+ "C07": dict(tech="exhaustive enumeration of shapes x every element position/accessor x boundary values; compiled extraction program run on reference encodings vs the component's reference encoding",
+             text="For every shape, every tuple index / named field / array index (constant and run-time, in range and out of range incl. 7/8/15/16 for bit-packed arrays), get() and length(): decode + access must yield the component's reference encoding for every boundary value; out-of-range indices must fail.",
+             note="algosdk.abi as reference; reference AVM", ref="2/C07"),
+ "C10": dict(tech="exhaustive enumeration of cell populations (n over a list crossing 128 and 256) x requested-id patterns x placements x kinds x options; marker write/read-back executed on reference AVM",
+             text="Programs with n simultaneously live cells for every n in the list, with automatic / requested / colliding / duplicate slot ids, spread over main and subroutines, as ScratchVars, ABI values (frame locals beyond 128), MaybeValue outputs and DynamicScratchVar aliases: every marker must survive, requested ids must be the ones index() sees, >256 cells or duplicate ids must be rejected.",
+             note="reference AVM scratch/frame semantics", ref="2/C10"),
 }
 NOT_YET = {}
 props = [json.loads(l) for l in open(os.path.join(HERE, "properties.jsonl"))]
